@@ -120,7 +120,9 @@ def run(ck):
                 ck.violation(f'same seed/data/config gives different predictions after prior random draws on {desc}', dict(desc, kind='seed'),
                              key=json.dumps(dict(site='seed-reproducibility', method=method)))
         # (2) refit vs fresh, RNG re-seeded identically before the compared fit
-        ctor2 = dict(ctor); ctor2.pop('random_state')
+        ctor2 = dict(ctor)
+        if i % 2:
+            ctor2.pop('random_state')           # every other configuration keeps random_state in the constructor of both the fresh and the re-used estimator
         fresh = seeded_fit(xr.xRFM(**copy.deepcopy(ctor2)), D, 555)
         base = preds(fresh, Q, is_class)
         for hist in ([('split',)], [('leaf',)], [('split',), ('split',)]):
